@@ -51,6 +51,8 @@ def gen(seed, tier):
         pl["stack_objectives"] = objs
         pl["mixed_directions"] = True
     sp = pl.get("sprout")
+    if sp and sp.get("factory") == "nbc" and seed % 2 == 0:
+        sp["positional"] = True
     if sp and "generator" in sp and seed % 5 == 2:
         # a user-defined filter written in functional style (returns a new dict with new candidate objects)
         sp["deme_filters"].insert((seed // 5) % (len(sp["deme_filters"]) + 1), {"kind": "functional"})
